@@ -72,5 +72,48 @@ CLAIMS = {
     },
 }
 
+_FE = ("Trusted base: the independent wire reader/writer (harness/src/wire.rs) used to build the mutants, PartialEq of the "
+       "crate's types to recognise equivalent encodings. Both feature configurations.")
+
+CLAIMS.update({
+    "C07": {
+        "text": "Exhaustive single-bit fault enumeration over six serialized encapsulations plus an enumerated catalogue of "
+                "structural rearrangements and splices; every mutant that deserializes to a different object is decapsulated by "
+                "every key: any Ok(Some) is a violation. Same for PKE ciphertexts and header metadata.",
+        "design_ref": "§4 C07", "note": _FE,
+        "technique": "fault enumeration (every bit + structural operators) with a decapsulation oracle; ASan run in thorough",
+    },
+    "C08": {
+        "text": "Enumerated catalogue of named tamper operators on issued keys; refresh must refuse every non-issued arrangement "
+                "and leave key and master key byte-identical. The unframed-MAC re-framings are a recorded open finding.",
+        "design_ref": "§4 C08, §6", "note": _FE,
+        "technique": "fault enumeration (tamper-operator catalogue) with refresh as oracle; known-findings file keyed on operator/flavour",
+    },
+    "C12": {
+        "text": "Grid of plaintext/metadata lengths x AAD pairs x key classes x flavours, with truncation and bit-flip sweeps; "
+                "outputs compared byte-for-byte with the inputs.",
+        "design_ref": "§4 C12", "note": "Trusted base: none beyond the harness; inputs are their own oracle.",
+        "technique": "round-trip and authentication monitor over an input grid with truncation/bit-flip sweeps",
+    },
+    "C15": {
+        "text": "Bounded-exhaustive totality (all strings over an 11-symbol alphabet up to length 6/7) and truth-table "
+                "equivalence of parsed policies and DNFs against the generating formulas.",
+        "design_ref": "§4 C15", "note": "Trusted base: the harness's own formula evaluator and printer.",
+        "technique": "bounded-exhaustive input enumeration + truth-table oracle on the public AccessPolicy enum",
+    },
+    "C16": {
+        "text": "Statistical freshness monitor: hash sets of every value that must not repeat, across threads and instances, "
+                "constant-bit detection on nonces, key-separation probe for header metadata.",
+        "design_ref": "§4 C16", "note": "Detects constant/low-entropy/counter-reset/cross-thread reuse, not 2^-96 collisions.",
+        "technique": "statistical uniqueness monitor over repeated identical calls (values read from the wire)",
+    },
+    "C17": {
+        "text": "Tracing relation recomputed outside the crate (curve25519 via crypto_core, P-256 via p256) from scalars and "
+                "points read off the wire after every keygen/refresh/round trip; unknown ids must be refused.",
+        "design_ref": "§4 C17", "note": "Trusted base: wire reader, curve libraries.",
+        "technique": "history monitor with independent group arithmetic on wire-level observations",
+    },
+})
+
 NOT_APPLICABLE = {p: "check under construction in this snapshot (not a claim that the technique does not apply)" for p in
-                  ["C07", "C08", "C10", "C12", "C14", "C15", "C16", "C17", "C19"]}
+                  ["C10", "C14", "C19"]}
